@@ -49,6 +49,11 @@ def variant_files(kind, k=0, pkg="pk"):
                 "b.go": "package %s\n\nimport \"%s/%s/dbx\"\n\nfunc NewT%d(n int) T { return T{N: n} }\n\nvar _ = dbx.NewN\n" % (pkg, MOD, pkg, k),
                 "wire.go": inj_hdr.replace('import "github.com/google/wire"', 'import (\n\t"github.com/google/wire"\n\t"%s/%s/dbx"\n)' % (MOD, pkg))
                 + "func Init() U {\n\twire.Build(dbx.NewN, NewT%d, NewU%d)\n\treturn U{}\n}\n" % (k, k)}
+    if kind == "L":
+        # accepted; the injector file carries a //line directive (as generated sources do) that names a file in another directory
+        hdr = inj_hdr.replace("package %s\n" % pkg, "//line ../pk0/inject.tmpl:5\npackage %s\n" % pkg)
+        return {"a.go": base + "\nfunc NewT%d() T { return T{N: %d} }\n\nfunc NewU%d(t T) U { return U{T: t} }\n" % (k, k, k),
+                "wire.go": hdr + "func Init() U {\n\twire.Build(NewT%d, NewU%d)\n\treturn U{}\n}\n" % (k, k)}
     if kind == "N":
         return {"a.go": base}
     if kind == "O":
@@ -64,7 +69,7 @@ def expected_errs(kind):
 
 
 def has_output(kind):
-    return kind in ("A", "E", "M", "H", "I")
+    return kind in ("A", "E", "M", "H", "I", "L")
 
 
 class Workspace:
@@ -77,6 +82,7 @@ class Workspace:
             "module %s\n\ngo 1.21\n\nrequire github.com/google/wire v0.0.0\n\nreplace github.com/google/wire => ./_wire\n" % MOD)
         self.contents = {"": 0}      # bytes -> id
         self.ref = {}                # (kind, k, pkgname, opts) -> bytes
+        self.ref_failures = []       # reference generations that failed: each a failing input
 
     def close(self):
         rmtree(self.root)
@@ -164,7 +170,13 @@ class Workspace:
             b = ws.read(d, pref + "wire_gen.go")
             self.ref[key] = b if has_output(kind) else ""
             if has_output(kind) and (rc != 0 or b is None):
-                raise RuntimeError("reference generation failed for %s: rc=%s %s" % (key, rc, err[-300:]))
+                # a well-formed package in a fresh directory of its own: this is a failing input, not a harness problem
+                self.ref_failures.append({"stream": "cmd-reference", "variant": "%s%d" % (kind, k), "options": list(opts),
+                                          "files": variant_files(kind, k, pkg=d.split("/")[-1]),
+                                          "why": ["`wire gen %s ./%s` on a fresh checkout of a well-formed package exits %s and %s: %s"
+                                                  % (" ".join(opts), d, rc, "writes no %swire_gen.go in the package directory" % pref if b is None else "wrote the file",
+                                                     err.strip()[-300:])]})
+                self.ref[key] = b or ""
         finally:
             ws.close()
         return self.ref[key]
@@ -187,7 +199,8 @@ PRIOR = ["absent", "same", "stale", "garbage", "noncompiling", "longstale", "dir
 # particular combination of option and package mix only now and then)
 C17_SCRIPTED = [("gen", "AOA"), ("diff", "OA"), ("check", "AO"), ("gen-header", "AAA"), ("gen-header", "AEAA"), ("gen-prefix", "AA"), ("gen", "ARA"), ("diff-header", "AA"),
                 ("gen-tags", "AE"), ("gen-default", "AUA"), ("diff", "RA"), ("gen-header", "ANRA"), ("diff", "AR"),
-                ("gen", "AFA"), ("diff", "FA"), ("gen", "GM"), ("check", "F"), ("gen-header", "MF")]
+                ("gen", "AFA"), ("diff", "FA"), ("gen", "GM"), ("check", "F"), ("gen-header", "MF"),
+                ("gen", "AL"), ("diff", "NL"), ("gen", "L")]
 
 
 def c17_case(rng, ws, case_no, force=None):
@@ -200,7 +213,7 @@ def c17_case(rng, ws, case_no, force=None):
             shutil.rmtree(ws.root + "/" + d)
     pkgs = []
     for i in range(n):
-        kind = rng.choice(["A", "A", "E", "R", "U", "N", "M", "F", "G"])
+        kind = rng.choice(["A", "A", "E", "R", "U", "N", "M", "F", "G", "L"])
         if rng.random() < 0.05:
             kind = "X"
         if force:
@@ -354,6 +367,7 @@ def run_c17(rep, tier):
                 fails.append({"stream": "c17", "request": req, "impl": impl, "why": bad, "invocation": desc,
                               "stderr": err[-600:]})
     finally:
+        fails = ws.ref_failures[:3] + fails
         ws.close()
     rep.coverage["c17_commands"] = stats
     rep.assumptions += ["the reference content of a package is what `wire gen` writes for it in a directory of its own",
@@ -483,6 +497,7 @@ def run_c18(rep, tier):
             if impl != mod.strip():
                 dis.append({"stream": "c18", "request": req, "impl": impl, "model": mod, "history": trace})
     finally:
+        fails = ws.ref_failures[:3] + fails
         ws.close()
     rep.assumptions += ["H-iso: analysis does not read the output file (it is excluded by its !wireinject constraint) — "
                         "this is exactly what the history correspondence validates"]
